@@ -16,6 +16,14 @@
 //! its own ("did not return although no emission was executing"), end-of-round measurements are taken while the
 //! handles are still held, then one more emission is made, then they are dropped (which must finalise nothing).
 
+//!
+//! Round 6: re-entrancy deeper than one level (`m<d>`: the recorder's own emission re-enters the recorder, which
+//! emits again, … `d` levels), `drop(handle)` (`D`) and `into_inner` (`I`) issued by the recorder from INSIDE a
+//! forwarded call (`I` never returns — theorem `into_inner_from_inside_never_returns` — the harness lets it try,
+//! takes the measurements, then unwinds it out of the retry loop through the yield point), an emission through the
+//! wrapper from the recorder's own `Drop` (must be ignored), and wrapped recorder types of four sizes (8 … 4104 bytes,
+//! the padding checked intact when the recorder comes back).
+
 use crate::sched;
 use crate::util::*;
 use metrics::{Counter, CounterFn, Gauge, GaugeFn, Histogram, HistogramFn, Key, KeyName, Label, Level, Metadata, Recorder, SharedString, Unit};
@@ -55,6 +63,52 @@ thread_local! {
     /// through `KEPT_OUT` instead of dropping it at the end of the emitting statement
     static KEEP_NEXT: Cell<bool> = Cell::new(false);
     static KEPT_OUT: RefCell<Option<Kept>> = RefCell::new(None);
+    /// emissions the recorder double makes one inside the other below the one in `NEST` (`m<d>`: levels 2..d)
+    static NEST_MORE: RefCell<Vec<Em>> = RefCell::new(vec![]);
+    /// what became of every re-entrant emission of the current outermost call, innermost first
+    static NEST_RESULTS: RefCell<Vec<&'static str>> = RefCell::new(vec![]);
+    /// mode 4: what the recorder double does from inside the forwarded call (drop the recovery handle / call into_inner)
+    static INSIDE_ACT: RefCell<Option<Box<dyn FnOnce()>>> = RefCell::new(None);
+    /// the thread is inside an `into_inner` it called from inside a forwarded call (see `abort_hook`)
+    static NESTED_II: Cell<bool> = Cell::new(false);
+    /// … and was unwound out of it by the harness: the thread's program ends there
+    static ABORTED: Cell<bool> = Cell::new(false);
+}
+
+/// size class of the wrapped recorder type for the rounds that follow (0: 8 bytes … 3: 4104 bytes)
+static SIZE_CLASS: AtomicUsize = AtomicUsize::new(0);
+
+/// Hook installed AFTER a scheduled round ended with a thread spinning in an `into_inner` it called from inside a
+/// forwarded call: the only way out of that loop is to unwind through its yield point (the unwinding drops `self`,
+/// i.e. the recovery handle).
+fn abort_hook(id: &'static str) {
+    if id == "spin0:recover.try_unwrap" && NESTED_II.with(|n| n.get()) {
+        std::panic::resume_unwind(Box::new("mv: into_inner called from inside a forwarded call is unwound by the harness"));
+    }
+}
+
+/// padding of the wrapped recorder type (so that `R` has different sizes), filled with a pattern
+trait Pad: Send + Sync + 'static {
+    fn make() -> Self;
+    fn intact(&self) -> bool;
+}
+impl Pad for () {
+    fn make() -> Self {}
+    fn intact(&self) -> bool {
+        true
+    }
+}
+impl<const N: usize> Pad for [u64; N] {
+    fn make() -> Self {
+        let mut a = [0u64; N];
+        for (i, x) in a.iter_mut().enumerate() {
+            *x = 0xA5A5_0000_0000_0000 ^ (i as u64).wrapping_mul(0x9E37_79B9);
+        }
+        a
+    }
+    fn intact(&self) -> bool {
+        self.iter().enumerate().all(|(i, x)| *x == 0xA5A5_0000_0000_0000 ^ (i as u64).wrapping_mul(0x9E37_79B9))
+    }
 }
 
 /// a metric handle obtained through the wrapper that the caller keeps (`let c = counter!(..)`)
@@ -159,6 +213,9 @@ struct Shared {
     /// long-hold round: an emission is inside and waits / may leave
     hold_entered: AtomicBool,
     hold_release: AtomicBool,
+    /// the wrapper through which the recorder double emits once from its own `Drop` (taken there), and what came of it
+    drop_emit: Mutex<Option<DynRec>>,
+    drop_emit_result: Mutex<Option<&'static str>>,
 }
 impl Shared {
     fn new(id: usize) -> Arc<Shared> {
@@ -173,6 +230,8 @@ impl Shared {
             light_inside: (0..MAX_THREADS).map(|_| Padded(AtomicUsize::new(0))).collect(),
             hold_entered: AtomicBool::new(false),
             hold_release: AtomicBool::new(false),
+            drop_emit: Mutex::new(None),
+            drop_emit_result: Mutex::new(None),
         })
     }
     /// calls executing inside the recorder double right now
@@ -184,10 +243,11 @@ impl Shared {
     }
 }
 
-struct Rec {
+struct Rec<P: Pad = ()> {
     sh: Arc<Shared>,
+    pad: P,
 }
-impl Rec {
+impl<P: Pad> Rec<P> {
     fn enter(&self, what: impl FnOnce() -> String) {
         if LIGHT.with(|l| l.get()) {
             let t = TIDX.with(|t| t.get());
@@ -205,10 +265,25 @@ impl Rec {
         self.sh.inside.fetch_add(1, Ordering::SeqCst);
         let mode = MODE.with(|m| m.replace(0));
         if mode == 2 {
-            // the recorder emits its own telemetry from inside the forwarded call
+            // the recorder emits its own telemetry from inside the forwarded call (and, `m<d>`, that emission's
+            // forwarded call emits again, …)
             if let Some((w, em, sh)) = NEST.with(|n| n.borrow_mut().take()) {
-                let r = do_emit(&*w, &em, &sh, TIDX.with(|t| t.get()), 0, None);
+                let mut more = NEST_MORE.with(|m| std::mem::take(&mut *m.borrow_mut()));
+                let r = if more.is_empty() {
+                    do_emit(&*w, &em, &sh, TIDX.with(|t| t.get()), 0, None)
+                } else {
+                    let next = more.remove(0);
+                    NEST_MORE.with(|m| *m.borrow_mut() = more);
+                    do_emit(&*w, &em, &sh, TIDX.with(|t| t.get()), 2, Some((w.clone(), next, sh.clone())))
+                };
                 NEST_RESULT.with(|x| *x.borrow_mut() = Some(r));
+                NEST_RESULTS.with(|x| x.borrow_mut().push(r));
+            }
+        }
+        if mode == 4 {
+            // the recorder ends the life of its own recovery handle from inside the forwarded call
+            if let Some(act) = INSIDE_ACT.with(|a| a.borrow_mut().take()) {
+                act();
             }
         }
         if mode == 3 {
@@ -226,12 +301,28 @@ impl Rec {
         }
     }
 }
-impl Drop for Rec {
+impl<P: Pad> Drop for Rec<P> {
     fn drop(&mut self) {
         if self.sh.inside_now() > 0 {
             self.sh.final_while_inside.store(true, Ordering::SeqCst);
         }
         self.sh.finalised.fetch_add(1, Ordering::SeqCst);
+        // the recorder's destructor emits through the wrapper (exporter flushing its own telemetry): finalisation has
+        // begun, the call must not come back into this recorder. The thread's emission state is saved around it (the
+        // destructor runs in the middle of whatever call dropped the last reference); no parking inside (the
+        // destructor belongs to the step that dropped the last reference).
+        let w = self.sh.drop_emit.lock().unwrap().take();
+        if let Some(w) = w {
+            let saved = (MODE.with(|m| m.get()), NEST.with(|n| n.borrow_mut().take()), KEEP_NEXT.with(|k| k.get()));
+            let probe = Em { method: 4, name: "from.drop".into(), labels: vec![("in".into(), "destructor".into())], unit: 0, desc: String::new(), meta: 2, val: 13 };
+            let sh = self.sh.clone();
+            let t = TIDX.with(|t| t.get());
+            let r = sched::muted(|| do_emit(&*w, &probe, &sh, t, 0, None));
+            *self.sh.drop_emit_result.lock().unwrap() = Some(r);
+            MODE.with(|m| m.set(saved.0));
+            NEST.with(|n| *n.borrow_mut() = saved.1);
+            KEEP_NEXT.with(|k| k.set(saved.2));
+        }
     }
 }
 fn show_key(k: &Key) -> String {
@@ -241,7 +332,7 @@ fn show_key(k: &Key) -> String {
 fn show_meta(m: &Metadata<'_>) -> String {
     format!("target={} level={:?} mp={:?}", m.target(), m.level(), m.module_path())
 }
-impl Recorder for Rec {
+impl<P: Pad> Recorder for Rec<P> {
     fn describe_counter(&self, k: KeyName, u: Option<Unit>, d: SharedString) {
         self.enter(|| format!("describe_counter {} {:?} {}", k.as_str(), u, d))
     }
@@ -446,13 +537,19 @@ enum Call {
     UseKept,
     /// drop every kept handle
     DropKept,
+    /// an emission during which the recorder emits again through the wrapper, so many levels deep
+    EmitDeep(usize),
+    /// an emission during which the recorder drops the recovery handle (from inside the forwarded call)
+    EmitDropInside,
+    /// an emission during which the recorder calls `into_inner` (from inside the forwarded call); never returns
+    EmitIntoInside,
 }
 impl Call {
     fn is_emission(self) -> bool {
-        matches!(self, Call::Emit | Call::EmitPanic | Call::EmitNested | Call::EmitKeep)
+        matches!(self, Call::Emit | Call::EmitPanic | Call::EmitNested | Call::EmitKeep | Call::EmitDeep(_) | Call::EmitDropInside | Call::EmitIntoInside)
     }
     fn is_end(self) -> bool {
-        matches!(self, Call::IntoInner | Call::DropHandle)
+        matches!(self, Call::IntoInner | Call::DropHandle | Call::EmitDropInside | Call::EmitIntoInside)
     }
 }
 
@@ -461,6 +558,8 @@ struct Step {
     call: Call,
     em: Option<Em>,
     nested: Option<Em>,
+    /// `m<d>`: the emissions of levels 2..d (level 1 is `nested`)
+    deep: Vec<Em>,
 }
 fn st(call: Call, r: &mut Rng) -> Step {
     let mut em = if call.is_emission() || call == Call::UseKept { Some(gen_em(r)) } else { None };
@@ -468,7 +567,9 @@ fn st(call: Call, r: &mut Rng) -> Step {
         // only the register_* methods return a handle
         em.as_mut().unwrap().method = *r.pick(&[0usize, 2, 4]);
     }
-    Step { call, em, nested: if call == Call::EmitNested { Some(gen_em(r)) } else { None } }
+    let nested = if call == Call::EmitNested || matches!(call, Call::EmitDeep(d) if d > 0) { Some(gen_em(r)) } else { None };
+    let deep = if let Call::EmitDeep(d) = call { (1..d).map(|_| gen_em(r)).collect() } else { vec![] };
+    Step { call, em, nested, deep }
 }
 
 fn prog_tok(p: &[Step]) -> String {
@@ -477,14 +578,17 @@ fn prog_tok(p: &[Step]) -> String {
     }
     p.iter()
         .map(|c| match c.call {
-            Call::Emit => "e",
-            Call::IntoInner => "i",
-            Call::DropHandle => "d",
-            Call::EmitPanic => "p",
-            Call::EmitNested => "n",
-            Call::EmitKeep => "k",
-            Call::UseKept => "u",
-            Call::DropKept => "x",
+            Call::Emit => "e".to_string(),
+            Call::IntoInner => "i".to_string(),
+            Call::DropHandle => "d".to_string(),
+            Call::EmitPanic => "p".to_string(),
+            Call::EmitNested => "n".to_string(),
+            Call::EmitKeep => "k".to_string(),
+            Call::UseKept => "u".to_string(),
+            Call::DropKept => "x".to_string(),
+            Call::EmitDeep(d) => format!("m{}", d),
+            Call::EmitDropInside => "D".to_string(),
+            Call::EmitIntoInside => "I".to_string(),
         })
         .collect::<Vec<_>>()
         .join("+")
@@ -498,6 +602,9 @@ fn progs_tok(progs: &[Vec<Step>]) -> String {
 struct CallRec {
     res: String,
     nested: Option<String>,
+    /// answers that come before `res` in the model's result list: the re-entrant emissions of `m<d>` (innermost
+    /// first), `dropped` of `D`
+    pre: Vec<String>,
     /// free-running rounds: global sequence numbers taken right before / after the call
     t_start: u64,
     t_end: u64,
@@ -530,6 +637,17 @@ struct Outcome {
     post_use: Vec<Result<(usize, usize), String>>,
     /// destructor runs of the recorder caused by dropping the kept handles at the very end
     finalised_by_dropping_kept: usize,
+    /// what became of the emission the recorder double made from its own `Drop` (None: it was not finalised by the library)
+    drop_emit: Option<&'static str>,
+    /// a thread called `into_inner` from inside a forwarded call and was still trying when everything else had ended
+    nested_ii_stuck: bool,
+    /// … after the harness unwound it: (its thread ended, destructor runs of the recorder, calls inside)
+    nested_ii_after_abort: Option<(bool, usize, usize)>,
+    /// an `into_inner` called from inside a forwarded call RETURNED
+    nested_ii_returned: bool,
+    /// the padding of the recorder that came back from `into_inner` is not what was put in
+    pad_damaged: bool,
+    size_class: usize,
 }
 impl Outcome {
     fn results(&self) -> Vec<Vec<String>> {
@@ -541,6 +659,7 @@ impl Outcome {
                     if let Some(n) = &c.nested {
                         v.push(n.clone());
                     }
+                    v.extend(c.pre.iter().cloned());
                     v.push(c.res.clone());
                 }
                 v
@@ -552,9 +671,24 @@ impl Outcome {
 /// Runs the thread programs against one fresh pair. `schedule = Some(..)`: under the deterministic scheduler;
 /// `None`: free-running OS threads released together by a barrier (no hook installed, the points are no-ops).
 fn execute(progs: &[Vec<Step>], schedule: Option<&[usize]>) -> Outcome {
+    // the wrapped recorder type: 8, 80, 272 or 4104 bytes
+    match SIZE_CLASS.load(Ordering::SeqCst) % 4 {
+        0 => execute_p::<()>(progs, schedule),
+        1 => execute_p::<[u64; 9]>(progs, schedule),
+        2 => execute_p::<[u64; 33]>(progs, schedule),
+        _ => execute_p::<[u64; 512]>(progs, schedule),
+    }
+}
+
+fn execute_p<P: Pad>(progs: &[Vec<Step>], schedule: Option<&[usize]>) -> Outcome {
     let sh = Shared::new(1);
-    let (wrapped, handle) = RecoverableRecorder::new(Rec { sh: sh.clone() }).verif_build();
+    let (wrapped, handle) = RecoverableRecorder::new(Rec::<P> { sh: sh.clone(), pad: P::make() }).verif_build();
     let wrapped: DynRec = Arc::new(wrapped);
+    *sh.drop_emit.lock().unwrap() = Some(wrapped.clone());
+    let nested_ii = Arc::new(AtomicBool::new(false));
+    let nested_ii_returned = Arc::new(AtomicBool::new(false));
+    let pad_damaged = Arc::new(AtomicBool::new(false));
+    let bodies_done = Arc::new(AtomicUsize::new(0));
     let handle = Arc::new(Mutex::new(Some(handle)));
     let calls: Arc<Mutex<Vec<Vec<CallRec>>>> = Arc::new(Mutex::new(vec![vec![]; progs.len()]));
     let recovered = Arc::new(AtomicBool::new(false));
@@ -586,9 +720,22 @@ fn execute(progs: &[Vec<Step>], schedule: Option<&[usize]>) -> Outcome {
         let store = stores[t].clone();
         let in_into_inner = in_into_inner.clone();
         let handle_ended = handle_ended.clone();
+        let nested_ii = nested_ii.clone();
+        let nested_ii_returned = nested_ii_returned.clone();
+        let pad_damaged = pad_damaged.clone();
+        let bodies_done = bodies_done.clone();
         bodies.push(Box::new(move || {
+            struct Done(Arc<AtomicUsize>);
+            impl Drop for Done {
+                fn drop(&mut self) {
+                    self.0.fetch_add(1, Ordering::SeqCst);
+                }
+            }
+            let _done = Done(bodies_done);
             TIDX.with(|x| x.set(t));
             ARRIVED.with(|a| a.borrow_mut().clear());
+            ABORTED.with(|a| a.set(false));
+            NESTED_II.with(|a| a.set(false));
             if free {
                 barrier.wait();
             }
@@ -623,6 +770,76 @@ fn execute(progs: &[Vec<Step>], schedule: Option<&[usize]>) -> Outcome {
                         rec.nested = NEST_RESULT.with(|x| x.borrow_mut().take()).map(|n| format!("nested-{}", n));
                         r
                     }
+                    Call::EmitDeep(d) => {
+                        NEST_RESULTS.with(|x| x.borrow_mut().clear());
+                        let r = if d == 0 {
+                            do_emit(&*wrapped, c.em.as_ref().unwrap(), &sh, t, 0, None)
+                        } else {
+                            NEST_MORE.with(|m| *m.borrow_mut() = c.deep.clone());
+                            do_emit(&*wrapped, c.em.as_ref().unwrap(), &sh, t, 2, Some((wrapped.clone(), c.nested.clone().unwrap(), sh.clone())))
+                        };
+                        NEST_MORE.with(|m| m.borrow_mut().clear());
+                        rec.pre = NEST_RESULTS.with(|x| std::mem::take(&mut *x.borrow_mut())).into_iter().map(|n| format!("nested-{}", n)).collect();
+                        r
+                    }
+                    Call::EmitDropInside => {
+                        let (handle2, ended2) = (handle.clone(), handle_ended.clone());
+                        let did = Arc::new(AtomicBool::new(false));
+                        let did2 = did.clone();
+                        INSIDE_ACT.with(|a| {
+                            *a.borrow_mut() = Some(Box::new(move || {
+                                metrics::verif::point("h.drop");
+                                let h = handle2.lock().unwrap().take();
+                                ended2.store(true, Ordering::SeqCst);
+                                drop(h);
+                                did2.store(true, Ordering::SeqCst);
+                            }))
+                        });
+                        let r = do_emit(&*wrapped, c.em.as_ref().unwrap(), &sh, t, 4, None);
+                        INSIDE_ACT.with(|a| *a.borrow_mut() = None);
+                        if did.load(Ordering::SeqCst) {
+                            rec.pre = vec!["dropped".to_string()];
+                        }
+                        r
+                    }
+                    Call::EmitIntoInside => {
+                        let (handle2, ended2, iii2, nii2, ret2, sh2) = (handle.clone(), handle_ended.clone(), in_into_inner.clone(), nested_ii.clone(), nested_ii_returned.clone(), sh.clone());
+                        let (rec2, busy2) = (recovered.clone(), busy.clone());
+                        INSIDE_ACT.with(|a| {
+                            *a.borrow_mut() = Some(Box::new(move || {
+                                let h = handle2.lock().unwrap().take();
+                                ended2.store(true, Ordering::SeqCst);
+                                iii2.fetch_or(1 << t, Ordering::SeqCst);
+                                nii2.store(true, Ordering::SeqCst);
+                                NESTED_II.with(|n| n.set(true));
+                                let res = h.map(|h| std::panic::catch_unwind(std::panic::AssertUnwindSafe(move || h.into_inner())));
+                                NESTED_II.with(|n| n.set(false));
+                                match res {
+                                    Some(Ok(rec)) => {
+                                        // it came back although the calling emission is executing inside the recorder
+                                        ret2.store(true, Ordering::SeqCst);
+                                        if sh2.inside.load(Ordering::SeqCst) > 0 {
+                                            busy2.store(true, Ordering::SeqCst);
+                                        }
+                                        rec2.store(true, Ordering::SeqCst);
+                                        std::mem::forget(rec);
+                                    }
+                                    Some(Err(_)) => ABORTED.with(|a| a.set(true)),
+                                    None => {}
+                                }
+                            }))
+                        });
+                        let r = do_emit(&*wrapped, c.em.as_ref().unwrap(), &sh, t, 4, None);
+                        INSIDE_ACT.with(|a| *a.borrow_mut() = None);
+                        if ABORTED.with(|a| a.get()) {
+                            // unwound by the harness after the measurements: the thread's program ends here, unrecorded
+                            break;
+                        }
+                        if nested_ii_returned.load(Ordering::SeqCst) {
+                            rec.pre = vec!["recovered".to_string()];
+                        }
+                        r
+                    }
                     Call::IntoInner => {
                         let h = handle.lock().unwrap().take();
                         handle_ended.store(true, Ordering::SeqCst);
@@ -637,6 +854,9 @@ fn execute(progs: &[Vec<Step>], schedule: Option<&[usize]>) -> Outcome {
                                     }
                                     if rec.sh.id != sh.id || !Arc::ptr_eq(&rec.sh, &sh) {
                                         wrong.store(true, Ordering::SeqCst);
+                                    }
+                                    if !rec.pad.intact() {
+                                        pad_damaged.store(true, Ordering::SeqCst);
                                     }
                                     recovered.store(true, Ordering::SeqCst);
                                     // the caller now owns the recorder; its eventual drop is the caller's, not the library's
@@ -706,9 +926,21 @@ fn execute(progs: &[Vec<Step>], schedule: Option<&[usize]>) -> Outcome {
     let cs = calls.lock().unwrap().clone();
     let finalised_by_library = sh.finalised.load(Ordering::SeqCst);
     let recovered_now = recovered.load(Ordering::SeqCst);
+    // a thread that called `into_inner` from inside a forwarded call is still trying (it holds a reference itself):
+    // the measurements above are taken while it tries; now it is unwound out of the retry loop through the yield
+    // point. The unwinding drops the handle, the forwarded call returns and drops the last reference.
+    let n_threads = progs.len();
+    let nested_ii_stuck = nested_ii.load(Ordering::SeqCst) && !nested_ii_returned.load(Ordering::SeqCst) && bodies_done.load(Ordering::SeqCst) < n_threads;
+    let mut nested_ii_after_abort = None;
+    if nested_ii_stuck {
+        metrics::verif::set_hook(Some(abort_hook));
+        let ended = wait_until(|| bodies_done.load(Ordering::SeqCst) >= n_threads, Duration::from_secs(5));
+        metrics::verif::set_hook(None);
+        nested_ii_after_abort = Some((ended, sh.finalised.load(Ordering::SeqCst), sh.inside_now()));
+    }
     let kept_at_end: usize = stores.iter().map(|s| s.lock().unwrap().len()).sum();
     let all_done = !unfinished && !run.deadlock && !run.timed_out && cs.iter().zip(progs).all(|(c, p)| c.len() == p.len());
-    let stuck_into_inner = if run.deadlock || unfinished {
+    let stuck_into_inner = if (run.deadlock || unfinished) && !nested_ii_stuck {
         let mask = in_into_inner.load(Ordering::SeqCst);
         let pending: Vec<usize> = (0..progs.len()).filter(|t| cs[*t].len() < progs[*t].len()).collect();
         let inside = sh.inside_now();
@@ -742,7 +974,16 @@ fn execute(progs: &[Vec<Step>], schedule: Option<&[usize]>) -> Outcome {
     }
     let finalised_by_dropping_kept = sh.finalised.load(Ordering::SeqCst) - before;
     let mis = MISROUTED.lock().unwrap().clone();
+    let drop_emit = { let g = sh.drop_emit_result.lock().unwrap(); *g };
+    // the wrapper kept for the destructor's emission is released (it only holds a weak reference to the recorder)
+    let _ = sh.drop_emit.lock().unwrap().take();
     Outcome {
+        drop_emit,
+        nested_ii_stuck,
+        nested_ii_after_abort,
+        nested_ii_returned: nested_ii_returned.load(Ordering::SeqCst),
+        pad_damaged: pad_damaged.load(Ordering::SeqCst),
+        size_class: SIZE_CLASS.load(Ordering::SeqCst) % 4,
         stuck_into_inner,
         kept_at_end,
         handle_ended: handle_ended.load(Ordering::SeqCst),
@@ -799,6 +1040,32 @@ fn oracle_common(out: &mut Out, progs: &[Vec<Step>], o: &Outcome, ctx: &str) -> 
         STUCK_ROUNDS.fetch_add(1, Ordering::SeqCst);
         return false;
     }
+    if o.nested_ii_returned {
+        out.oracle_fail(
+            "into_inner returned while an emission was executing inside the recorder",
+            &format!("threads {} (I = an emission during which the recorder calls into_inner on its own recovery handle): it returned although the calling emission was still inside the recorder {}", progs_tok(progs), ctx),
+        );
+    }
+    if o.nested_ii_stuck {
+        // expected (theorem into_inner_from_inside_never_returns): every other thread has ended, this one still tries;
+        // nothing may have been finalised or recovered while it tried, and unwinding it ends the recorder's life once
+        out.count("into_inner.from.inside.still.trying.when.all.else.ended");
+        out.nontrivial();
+        if o.finalised_by_library != 0 || o.recovered {
+            out.oracle_fail("recorder not dropped exactly once after the handle was dropped / dropped although recovered", &format!("while an into_inner called from inside a forwarded call was still trying: finalised {} recovered {} {}", o.finalised_by_library, o.recovered, ctx));
+        }
+        match o.nested_ii_after_abort {
+            Some((true, 1, 0)) => {}
+            x => out.oracle_fail(
+                "recorder not dropped exactly once after the handle was dropped / dropped although recovered",
+                &format!("threads {}: into_inner called from inside a forwarded call, unwound by the harness (which drops the handle), then the forwarded call returned: (thread ended, destructor runs, calls inside) = {:?}, want (true, 1, 0) {}", progs_tok(progs), x, ctx),
+            ),
+        }
+        if o.drop_emit.map_or(false, |r| r != "ignored") {
+            out.oracle_fail("a call entered the recorder after its finalisation began", &format!("the emission made by the recorder's own destructor through the wrapper: {:?} {}", o.drop_emit, ctx));
+        }
+        return false;
+    }
     if o.run.deadlock || o.run.timed_out || !o.run.panicked.is_empty() || o.unfinished {
         out.oracle_fail("recoverable recorder: deadlock, timeout or panic", &format!("{} unfinished={} {:?}", ctx, o.unfinished, o.run.trace));
         return false;
@@ -808,6 +1075,18 @@ fn oracle_common(out: &mut Out, progs: &[Vec<Step>], o: &Outcome, ctx: &str) -> 
     }
     if o.recovered_wrong_recorder {
         out.oracle_fail("into_inner returned a recorder that is not the original one", ctx);
+    }
+    if o.pad_damaged {
+        out.oracle_fail("into_inner returned a recorder that is not the original one", &format!("the recorder value came back with different contents (wrapped type of size class {}) {}", o.size_class, ctx));
+    }
+    // the recorder's destructor emitted through the wrapper: finalisation had begun, so the call must be ignored
+    match o.drop_emit {
+        Some("ignored") => out.count("emission.from.the.recorders.destructor.ignored"),
+        Some(r) => out.oracle_fail(
+            "a call entered the recorder after its finalisation began",
+            &format!("the emission made by the recorder's own destructor through the wrapper was not answered with an inert handle: {} (threads {}) {}", r, progs_tok(progs), ctx),
+        ),
+        None => {}
     }
     if o.busy_at_recovery {
         out.oracle_fail("into_inner returned while an emission was executing inside the recorder", ctx);
@@ -821,7 +1100,7 @@ fn oracle_common(out: &mut Out, progs: &[Vec<Step>], o: &Outcome, ctx: &str) -> 
     if o.final_while_inside {
         out.oracle_fail("the recorder was finalised while a call was inside it", ctx);
     }
-    let has_drop = progs.iter().flatten().any(|c| c.call == Call::DropHandle);
+    let has_drop = progs.iter().flatten().any(|c| c.call == Call::DropHandle || c.call == Call::EmitDropInside);
     let want_final = if o.recovered { 0 } else if has_drop { 1 } else { 0 };
     if o.finalised_by_library != want_final {
         out.oracle_fail(
@@ -862,6 +1141,17 @@ fn oracle_common(out: &mut Out, progs: &[Vec<Step>], o: &Outcome, ctx: &str) -> 
                 _ => {}
             }
             // the thread holds a strong reference while it is inside: its re-entrant emission cannot find the recorder gone
+            if let Call::EmitDeep(d) = progs[t][i].call {
+                if c.res == "delivered" && (c.pre.len() != d || c.pre.iter().any(|n| n != "nested-delivered")) {
+                    out.oracle_fail(
+                        "an emission made from inside the recorder (same wrapper, the thread holds a strong reference) did not reach the recorder",
+                        &format!("thread {} call {}: re-entrant {} levels deep, re-entrant calls (innermost first) {:?} {}", t, i, d, c.pre, ctx),
+                    );
+                }
+            }
+            if progs[t][i].call == Call::EmitDropInside && c.res == "delivered" && c.pre != ["dropped"] {
+                out.oracle_fail("recoverable recorder: deadlock, timeout or panic", &format!("thread {} call {}: the recorder double did not get to drop the handle from inside the call {}", t, i, ctx));
+            }
             if progs[t][i].call == Call::EmitNested && (c.res == "delivered" || c.res == "panicked") && c.nested.as_deref() != Some("nested-delivered") {
                 out.oracle_fail(
                     "an emission made from inside the recorder (same wrapper, the thread holds a strong reference) did not reach the recorder",
@@ -885,7 +1175,7 @@ fn oracle(out: &mut Out, progs: &[Vec<Step>], o: &Outcome) {
     // walk the trace: per emission the grant index of its (outer) upgrade step and of the grant at which it left
     let n = progs.len();
     let mut next_call = vec![0usize; n];
-    let mut nested_pending = vec![false; n];
+    let mut nested_pending = vec![0usize; n];
     let mut leaves_left = vec![0usize; n];
     let mut open: Vec<Option<usize>> = vec![None; n]; // index into `spans` of the thread's open outer call
     let mut spans: Vec<(usize, usize, usize, usize)> = vec![]; // (thread, call, upgrade grant, leave grant)
@@ -893,8 +1183,8 @@ fn oracle(out: &mut Out, progs: &[Vec<Step>], o: &Outcome) {
     for (gi, (t, id)) in o.run.trace.iter().enumerate() {
         let t = *t;
         if *id == "weak.upgrade" {
-            if nested_pending[t] {
-                nested_pending[t] = false;
+            if nested_pending[t] > 0 {
+                nested_pending[t] -= 1;
                 continue;
             }
             let Some(i) = (next_call[t]..progs[t].len()).find(|i| progs[t][*i].call.is_emission()) else { continue };
@@ -902,8 +1192,9 @@ fn oracle(out: &mut Out, progs: &[Vec<Step>], o: &Outcome) {
             let Some(c) = o.calls[t].get(i) else { continue };
             ups.push((t, i, gi));
             if c.res != "ignored" {
-                nested_pending[t] = c.nested.is_some();
-                leaves_left[t] = if c.nested.as_deref() == Some("nested-delivered") { 2 } else { 1 };
+                let deep_levels = if let Call::EmitDeep(d) = progs[t][i].call { d } else { 0 };
+                nested_pending[t] = if deep_levels > 0 { deep_levels } else if c.nested.is_some() { 1 } else { 0 };
+                leaves_left[t] = if deep_levels > 0 { 1 + c.pre.iter().filter(|n| *n == "nested-delivered").count() } else if c.nested.as_deref() == Some("nested-delivered") { 2 } else { 1 };
                 open[t] = Some(spans.len());
                 spans.push((t, i, gi, usize::MAX));
             }
@@ -959,6 +1250,9 @@ fn gen_progs(r: &mut Rng) -> Vec<Vec<Step>> {
     let n = r.range(2, 4);
     let ender = if r.chance(1, 12) { usize::MAX } else { r.below(n) };
     let end_call = if r.chance(1, 2) { Call::IntoInner } else { Call::DropHandle };
+    // round 6: the end of the handle's life issued by the recorder from inside a forwarded call (the second never
+    // returns: that thread's program ends with it; such a round costs the scheduler's 0.5 s grace period, so few)
+    let end_call = if r.chance(1, 6) { Call::EmitDropInside } else if r.chance(1, 50) { Call::EmitIntoInside } else { end_call };
     let mut progs = vec![];
     for t in 0..n {
         let mut p = vec![];
@@ -967,13 +1261,17 @@ fn gen_progs(r: &mut Rng) -> Vec<Vec<Step>> {
         for i in 0..=k {
             if t == ender && i == end_at {
                 p.push(st(end_call, r));
+                if end_call == Call::EmitIntoInside {
+                    break;
+                }
             } else if i < k {
-                let c = match r.below(16) {
+                let c = match r.below(18) {
                     0 | 1 => Call::EmitPanic,
                     2 | 3 => Call::EmitNested,
                     4 | 5 | 6 | 7 => Call::EmitKeep,
                     8 | 9 => Call::UseKept,
                     10 => Call::DropKept,
+                    16 | 17 => Call::EmitDeep(r.range(2, 4)),
                     _ => Call::Emit,
                 };
                 p.push(st(c, r));
@@ -1003,6 +1301,7 @@ fn one(out: &mut Out, progs: &[Vec<Step>], sch: &[usize]) {
             out.count("end.raced.with.emission");
         }
     }
+    out.count(&format!("wrapped.type.size.class={}", o.size_class));
     if o.kept_at_end > 0 && o.handle_ended {
         out.count("handles.kept.across.the.end");
         out.nontrivial();
@@ -1086,9 +1385,18 @@ fn free_round(out: &mut Out, progs: &[Vec<Step>]) {
 /// interleave with the upgrades, it must come back with the original recorder, nobody inside, never finalised
 /// by the library; nothing may enter afterwards. No op line (the number of emissions is not an input); oracles only.
 fn stress_round(out: &mut Out, r: &mut Rng, recover: bool) {
+    match r.below(4) {
+        0 => stress_round_p::<()>(out, r, recover),
+        1 => stress_round_p::<[u64; 9]>(out, r, recover),
+        2 => stress_round_p::<[u64; 33]>(out, r, recover),
+        _ => stress_round_p::<[u64; 512]>(out, r, recover),
+    }
+}
+
+fn stress_round_p<P: Pad>(out: &mut Out, r: &mut Rng, recover: bool) {
     let k = r.range(2, 6);
     let sh = Shared::new(1);
-    let (wrapped, handle) = RecoverableRecorder::new(Rec { sh: sh.clone() }).verif_build();
+    let (wrapped, handle) = RecoverableRecorder::new(Rec::<P> { sh: sh.clone(), pad: P::make() }).verif_build();
     let wrapped: DynRec = Arc::new(wrapped);
     // all threads are released together: the first attempts of into_inner fall among the first upgrades (count
     // leaving 1), later ones into the steady state; the ender's delay scans the alignment
@@ -1135,7 +1443,7 @@ fn stress_round(out: &mut Out, r: &mut Rng, recover: bool) {
             match std::panic::catch_unwind(std::panic::AssertUnwindSafe(move || handle.into_inner())) {
                 Ok(rec) => {
                     let inside = sh2.inside_now();
-                    let same = Arc::ptr_eq(&rec.sh, &sh2);
+                    let same = Arc::ptr_eq(&rec.sh, &sh2) && rec.pad.intact();
                     std::mem::forget(rec);
                     Some((inside, same))
                 }
@@ -1214,7 +1522,7 @@ fn stress_round(out: &mut Out, r: &mut Rng, recover: bool) {
 
 fn gen_free(r: &mut Rng) -> Vec<Vec<Step>> {
     let n = r.range(3, 5);
-    let end_call = if r.chance(3, 4) { Call::IntoInner } else { Call::DropHandle };
+    let end_call = if r.chance(3, 4) { Call::IntoInner } else if r.chance(1, 2) { Call::DropHandle } else { Call::EmitDropInside };
     let mut progs = vec![];
     for t in 0..n {
         let mut p = vec![];
@@ -1228,9 +1536,10 @@ fn gen_free(r: &mut Rng) -> Vec<Vec<Step>> {
             }
         } else {
             for _ in 0..r.range(8, 40) {
-                let c = match r.below(20) {
+                let c = match r.below(21) {
                     0 => Call::EmitPanic,
                     1 => Call::EmitNested,
+                    20 => Call::EmitDeep(r.range(2, 5)),
                     2 | 3 | 4 => Call::EmitKeep,
                     5 | 6 => Call::UseKept,
                     7 => Call::DropKept,
@@ -1275,7 +1584,7 @@ fn wait_until(f: impl Fn() -> bool, limit: Duration) -> bool {
 
 fn hold_round(out: &mut Out, r: &mut Rng, target: u64) {
     let sh = Shared::new(1);
-    let (wrapped, handle) = RecoverableRecorder::new(Rec { sh: sh.clone() }).verif_build();
+    let (wrapped, handle) = RecoverableRecorder::new(Rec { sh: sh.clone(), pad: () }).verif_build();
     let wrapped: DynRec = Arc::new(wrapped);
     HOLD_SPINS.store(0, Ordering::SeqCst);
     HOLD_TARGET.store(target, Ordering::SeqCst);
@@ -1459,7 +1768,7 @@ fn macro_probe(sh: &Arc<Shared>, t: usize, want_reached: bool) -> Vec<String> {
 fn install_scenario(out: &mut Out, r: &mut Rng) {
     out.case("install (real global recorder, macros)");
     let sh1 = Shared::new(1);
-    let first = RecoverableRecorder::new(Rec { sh: sh1.clone() }).install();
+    let first = RecoverableRecorder::new(Rec { sh: sh1.clone(), pad: () }).install();
     let h1 = match first {
         Ok(h) => {
             out.op("recover install ~ 1", "cell=1 installed");
@@ -1479,7 +1788,7 @@ fn install_scenario(out: &mut Out, r: &mut Rng) {
     let attempt = |id: usize| -> std::thread::JoinHandle<(Arc<Shared>, Result<(), Rec>)> {
         std::thread::spawn(move || {
             let sh = Shared::new(id);
-            let r = RecoverableRecorder::new(Rec { sh: sh.clone() }).install();
+            let r = RecoverableRecorder::new(Rec { sh: sh.clone(), pad: () }).install();
             match r {
                 Ok(h) => {
                     std::mem::forget(h);
@@ -1575,7 +1884,7 @@ fn install_scenario(out: &mut Out, r: &mut Rng) {
     }
     // a SECOND recoverable pair (local) whose recorder emits to the installed one from inside its forwarded call
     let sh_b = Shared::new(50);
-    let (wb, hb) = RecoverableRecorder::new(Rec { sh: sh_b.clone() }).verif_build();
+    let (wb, hb) = RecoverableRecorder::new(Rec { sh: sh_b.clone(), pad: () }).verif_build();
     NEST_RESULT.with(|x| *x.borrow_mut() = None);
     let o = do_emit(&wb, &gen_em(r), &sh_b, 0, 2, Some((g.clone(), gen_em(r), sh1.clone())));
     let n = NEST_RESULT.with(|x| x.borrow_mut().take());
@@ -1717,15 +2026,28 @@ pub fn run(cfg: &Cfg, out: &mut Out) {
         (plain(&[&[EmitKeep], &[DropHandle], &[EmitKeep, UseKept]]), vec![0, 0, 0, 1, 1, 2, 2, 2]),
         (plain(&[&[EmitKeep, Emit, UseKept], &[IntoInner, Emit], &[EmitKeep, DropKept, Emit]]), vec![0, 1, 2, 0, 2, 1, 1, 2, 0, 1, 2, 2, 0, 0, 1, 1, 2]),
         (plain(&[&[Emit, UseKept], &[EmitKeep, DropHandle, Emit, UseKept, DropKept]]), vec![0, 1, 0, 1, 1, 1, 0, 1, 1, 0, 1, 1]),
+        // round 6 — re-entrancy three levels deep racing into_inner (the thread holds four references)
+        (plain(&[&[EmitDeep(3)], &[IntoInner]]), vec![0, 0, 0, 0, 0, 1, 1, 1, 0, 0, 0, 0, 1]),
+        // … and after the handle was dropped while the outermost call is inside; depth 5 alone
+        (plain(&[&[EmitDeep(2), Emit], &[DropHandle]]), vec![0, 0, 1, 1, 0, 0, 0, 0, 0, 0, 0]),
+        (plain(&[&[EmitDeep(5)]]), vec![0; 16]),
+        // the recorder drops the handle from inside a forwarded call; another emission starts before that call returns
+        (plain(&[&[EmitDropInside], &[Emit]]), vec![0, 0, 0, 1, 1, 1, 0]),
+        (plain(&[&[Emit, EmitDropInside, Emit], &[EmitKeep, UseKept]]), vec![0, 0, 0, 0, 1, 0, 1, 1, 0, 0, 1, 0]),
+        // the recorder calls into_inner from inside a forwarded call: it never returns; the other threads are served
+        (plain(&[&[EmitIntoInside], &[Emit]]), vec![0, 0, 0, 0, 0, 1, 1, 1, 0, 0]),
+        (plain(&[&[Emit, EmitIntoInside], &[EmitKeep, UseKept], &[EmitDeep(2)]]), vec![0, 0, 0, 1, 0, 0, 1, 2, 2, 0, 2, 2, 1, 2]),
     ];
-    for (progs, sch) in corpus {
+    for (ci, (progs, sch)) in corpus.into_iter().enumerate() {
         out.case("corpus");
+        SIZE_CLASS.store(ci, Ordering::SeqCst);
         one(out, &progs, &sch);
     }
     for i in 0..cfg.cases {
         let mut r = root.fork(i as u64);
         out.case(&format!("seed={} i={}", cfg.seed, i));
         let progs = gen_progs(&mut r);
+        SIZE_CLASS.store(r.below(4), Ordering::SeqCst);
         let mut sch = vec![];
         let mut cur = r.below(progs.len());
         for _ in 0..60 {
@@ -1745,6 +2067,7 @@ pub fn run(cfg: &Cfg, out: &mut Out) {
         let mut r = root.fork(2_000_000 + i as u64);
         out.case(&format!("free seed={} i={}", cfg.seed, i));
         let progs = gen_free(&mut r);
+        SIZE_CLASS.store(r.below(4), Ordering::SeqCst);
         free_round(out, &progs);
         if out.n_oracle_fail > base + 20 || STUCK_ROUNDS.load(Ordering::SeqCst) > stuck0 + 2 {
             break;
@@ -1786,8 +2109,11 @@ pub fn run(cfg: &Cfg, out: &mut Out) {
             plain(&[&[EmitPanic, Emit], &[IntoInner, Emit]]),
             plain(&[&[EmitKeep, UseKept, Emit], &[IntoInner], &[EmitKeep]]),
             plain(&[&[EmitKeep, DropKept], &[DropHandle, Emit], &[EmitKeep, UseKept]]),
+            plain(&[&[EmitDeep(2)], &[IntoInner], &[Emit]]),
+            plain(&[&[EmitDropInside, Emit], &[Emit], &[EmitNested]]),
         ];
-        for progs in configs {
+        for (ci, progs) in configs.into_iter().enumerate() {
+            SIZE_CLASS.store(ci, Ordering::SeqCst);
             let mut prefix: Vec<usize> = vec![];
             let mut runs = 0usize;
             let mut exhausted = false;
